@@ -923,6 +923,65 @@ impl VisitMut for Norm {
                 }
             }
         }
+        // N8r (pre-order, as N8): ITER.map(|p| B).max() => the largest value B yields over the items of ITER, None for no item (definition; the
+        // values are of an integer type here, so which of several equal maxima is returned cannot be observed)
+        if let Expr::MethodCall(mc) = e {
+            if mc.method == "max" && mc.args.is_empty() {
+                if let Expr::MethodCall(inner) = &*mc.receiver {
+                    if inner.method == "map" && inner.args.len() == 1 {
+                        if let Expr::Closure(c) = &inner.args[0] {
+                            if c.inputs.len() == 1 && !body_has_return(&c.body) && matches!(&c.inputs[0], Pat::Ident(_)) {
+                                let sp = mc.method.span();
+                                let pat = c.inputs[0].clone();
+                                let body = &c.body;
+                                let recv = &inner.receiver;
+                                let acc = self.fresh("max");
+                                let y = self.fresh("y");
+                                let cur = self.fresh("c");
+                                // (option acc_type=TYPE: the type of the values, when invariants need it before inference settles it)
+                                let accty: Type = syn::parse_str(&format!("Option<{}>", self.acc_type.clone().unwrap_or("_".to_string()))).expect("acc_type");
+                                let ne: Expr = parse_quote!({
+                                    let mut #acc: #accty = None;
+                                    for #pat in #recv {
+                                        let #y = #body;
+                                        #acc = match #acc { None => Some(#y), Some(#cur) => if #y >= #cur { Some(#y) } else { Some(#cur) } };
+                                    }
+                                    #acc
+                                });
+                                *e = ne;
+                                self.log("N8r-map-max-to-loop", sp);
+                            }
+                        }
+                    }
+                }
+            }
+        }
+        // N8s (pre-order, as N8): ITER.position(|p| B) => the index of the first item of ITER for which B holds, as a counting loop with `break` (definition)
+        if let Expr::MethodCall(mc) = e {
+            if mc.method == "position" && mc.args.len() == 1 {
+                if let Expr::Closure(c) = &mc.args[0] {
+                    if c.inputs.len() == 1 && !body_has_return(&c.body) && matches!(&c.inputs[0], Pat::Ident(_)) {
+                        let sp = mc.method.span();
+                        let pat = c.inputs[0].clone();
+                        let body = &c.body;
+                        let recv = &mc.receiver;
+                        let acc = self.fresh("pos");
+                        let i = self.fresh("i");
+                        let ne: Expr = parse_quote!({
+                            let mut #acc = None;
+                            let mut #i: usize = 0;
+                            for #pat in #recv {
+                                if #body { #acc = Some(#i); break; }
+                                #i += 1;
+                            }
+                            #acc
+                        });
+                        *e = ne;
+                        self.log("N8s-position-to-loop", sp);
+                    }
+                }
+            }
+        }
         // N8p (pre-order, as N8): ITER.fold(INIT, |acc, x| B) => { let mut acc = INIT; for x in ITER { acc = B; } acc } (definition of fold)
         if let Expr::MethodCall(mc) = e {
             if mc.method == "fold" && mc.args.len() == 2 {
